@@ -991,13 +991,13 @@ fn main() {
         ctx.harness(Config::new("variant_convert_grammar", 1), |ch| grammar::var_grammar(ch, &vcfg));
         if ctx.thorough() {
             let acfg2 = grammar::AlnCfg::new(false, false);
-            ctx.harness(Config::new("alignment_convert_grammar_k2", 2), |ch| grammar::aln_grammar(ch, &acfg2));
+            ctx.harness(Config::new("alignment_convert_grammar_k2", 2), |ch| grammar::attributed(ch, |c| grammar::aln_grammar(c, &acfg2)));
             let acfgh = grammar::AlnCfg::new(true, false);
             ctx.harness(Config::new("alignment_convert_grammar_heavy", 1), |ch| grammar::aln_grammar(ch, &acfgh));
             let ccfg2 = grammar::AlnCfg::cram(false);
-            ctx.harness(Config::new("alignment_convert_grammar_cram_k2", 2), |ch| grammar::aln_grammar(ch, &ccfg2));
+            ctx.harness(Config::new("alignment_convert_grammar_cram_k2", 2), |ch| grammar::attributed(ch, |c| grammar::aln_grammar(c, &ccfg2)));
             let vcfg2 = grammar::VarCfg::new((4, 3), false, false);
-            ctx.harness(Config::new("variant_convert_grammar_k2", 2), |ch| grammar::var_grammar(ch, &vcfg2));
+            ctx.harness(Config::new("variant_convert_grammar_k2", 2), |ch| grammar::attributed(ch, |c| grammar::var_grammar(c, &vcfg2)));
             for ff in [(4, 2), (4, 4), (4, 5)] {
                 let v = grammar::VarCfg::new(ff, true, false);
                 ctx.harness(Config::new(format!("variant_convert_grammar_v{}{}", ff.0, ff.1), 1), |ch| grammar::var_grammar(ch, &v));
